@@ -30,7 +30,7 @@
 
    Definitions only. *)
 From Coq Require Import String.
-From ACH Require Export LayoutOk FileStruct.
+From ACH Require Export LayoutOk FileStruct Framing.
 Local Open Scope string_scope.
 Local Open Scope nat_scope.
 
@@ -519,3 +519,22 @@ Definition dispatchb (f : fileR) : bool :=
   && line_is T9 (fl_ctl f) && negb (pad_line (render_rec (fl_ctl f))).
 
 End WithLayouts.
+
+(* ------------------------------------------------------------------ *)
+(* Reader.Read on a decoded text: framing, then the lines                *)
+
+Fixpoint norm_lines (ns : list norm) : option (list bytes) :=
+  match ns with
+  | [] => Some []
+  | NLine l :: t => match norm_lines t with Some ls => Some (l :: ls) | None => None end
+  | NWrongLength :: _ => None
+  end.
+
+Definition read_text (T : list layout) (text : bytes) : option fileR :=
+  match norm_lines (read_lines text) with
+  | Some ls => read_file T ls
+  | None => None
+  end.
+
+(* no CR / LF byte inside a record *)
+Definition no_nl (s : bytes) : bool := forallb (fun b => negb (b =? 10)%N && negb (b =? 13)%N) s.
